@@ -104,6 +104,8 @@ package txnprovider
 //@   requires provOK(h) && pif != nil
 //@   ensures result == nil ==> provIndexOK(h, pif)
 //
+// the configured URI formatter is a pure function of its arguments (assumed; it is supplied by the embedding application)
+//@ iface options.formatCASURIForSource
 //@ func (*OperationProvider).readFromAlternateCASSources
 //@   requires provOK(h)
 //
